@@ -583,6 +583,52 @@ func genFacts(repo string) (string, error) {
 		}
 		fmt.Fprintf(&b, "%d", code)
 	}
+	b.WriteString("]\n\n")
+
+	// which of workflow / task template vars / task template defaults the command line and a
+	// property see, by evaluation of the real BuildTaskCommand / BuildPropertyMap on a task leaf
+	b.WriteString("/-- Task.BuildTaskCommand / Task.BuildPropertyMap on a real task role, by evaluation: index = 1·(template\n    defaults define k) + 2·(template vars define k) + 4·(the workflow defines k) → (command line, property),\n    each 0 absent, 1 the template defaults' value, 2 the template vars', 3 the workflow's. -/\ndef taskRankTable : List (Nat × Nat) := [")
+	for mask := 0; mask < 8; mask++ {
+		leaf := sx.L(sx.A("T"), sx.L(), sx.L(), sx.L(), sx.L())
+		td, tv := sx.L(), sx.L()
+		if mask&1 != 0 {
+			td = kvNode("k", "d")
+		}
+		if mask&2 != 0 {
+			tv = kvNode("k", "v")
+		}
+		if mask&4 != 0 {
+			leaf.List[2] = kvNode("k", "w")
+		}
+		tmpl := sx.L(td, tv)
+		root, err := build(sx.L(sx.I(0), sx.L(), sx.L(sx.A("A"), sx.L(), sx.L(), sx.L(), sx.L(), leaf), tmpl))
+		if err != nil {
+			return "", err
+		}
+		kids := root.GetRoles()
+		if len(kids) != 1 {
+			return "", fmt.Errorf("task rank: %d children", len(kids))
+		}
+		tp, err := taskProbes(kids[0], tmpl, []string{"k"})
+		if err != nil {
+			return "", err
+		}
+		var codes [2]int
+		for i := 0; i < 2; i++ {
+			if l := tp.At(i); l.Len() == 1 {
+				codes[i] = map[string]int{"d": 1, "v": 2, "w": 3}[l.At(0).At(1).Str()]
+				if codes[i] == 0 {
+					return "", fmt.Errorf("task rank: unexpected value %q", l.At(0).At(1).Str())
+				}
+			} else if l.Len() != 0 {
+				return "", fmt.Errorf("task rank: unexpected probe result %s", l.String())
+			}
+		}
+		if mask > 0 {
+			b.WriteString(", ")
+		}
+		fmt.Fprintf(&b, "(%d, %d)", codes[0], codes[1])
+	}
 	b.WriteString("]\n\nend Gen.VarsFacts\n")
 	return b.String(), nil
 }
